@@ -57,9 +57,10 @@ class FakeQueue:
 cv = contextvars.ContextVar("c14", default=-1)
 
 
-def scn(sym, cov, n, funcs, cancel=None, abandon=False, eager=False, T=1, J=2, precancel=False, RJ=1, shielded_caller=False):
+def scn(sym, cov, n, funcs, cancel=None, abandon=False, eager=False, T=1, J=2, precancel=False, RJ=1, shielded_caller=False, cancel_outside_shield=False):
     """funcs[k]: 'ret' | 'raise' | 'ctx' | 'chk' (calls from_thread.check_cancelled()) | 'retexc' (RETURNS an exception instance)
-    shielded_caller: the call is made directly inside a shielded scope, and it is THAT scope which gets cancelled"""
+    shielded_caller: the call is made directly inside a shielded scope, and it is THAT scope which gets cancelled
+    cancel_outside_shield: (with shielded_caller) the scope AROUND the shielded one is cancelled instead: the shield holds"""
     import anyio
     import anyio._backends._asyncio as B
     from anyio import CancelScope, from_thread, to_thread
@@ -134,7 +135,10 @@ def scn(sym, cov, n, funcs, cancel=None, abandon=False, eager=False, T=1, J=2, p
                 if any(it is not None and it[1].k == k for it in w.queue.items):
                     if len(in_flight()) > lim.total_tokens:
                         bad("more-running-calls-than-tokens", {"in_flight": len(in_flight()), "total": lim.total_tokens})
-                    st["scope_eff_%d" % k] = scopes[k].cancel_called or (k in inners and inners[k].cancel_called)
+                    if k in inners:  # the caller sits in a shielded scope: only that scope's own cancellation counts
+                        st["scope_eff_%d" % k] = inners[k].cancel_called
+                    else:
+                        st["scope_eff_%d" % k] = scopes[k].cancel_called
                     w.run()  # the REAL WorkerThread.run(): runs the function, reports via call_soon_threadsafe
                     return
             if k not in res and tries < 8:
@@ -155,7 +159,12 @@ def scn(sym, cov, n, funcs, cancel=None, abandon=False, eager=False, T=1, J=2, p
                     if shielded_caller:
                         with CancelScope(shield=True) as inner:
                             inners[k] = inner
-                            r["value"] = await to_thread.run_sync(fns[k], abandon_on_cancel=abandon, limiter=lim)
+                            try:
+                                r["value"] = await to_thread.run_sync(fns[k], abandon_on_cancel=abandon, limiter=lim)
+                            except asyncio.CancelledError:
+                                if not inner.cancel_called:
+                                    bad("cancellation-delivered-inside-shielded-scope", k)
+                                raise
                         r["inner_caught"] = inner.cancelled_caught
                     else:
                         r["value"] = await to_thread.run_sync(fns[k], abandon_on_cancel=abandon, limiter=lim)
@@ -190,7 +199,7 @@ def scn(sym, cov, n, funcs, cancel=None, abandon=False, eager=False, T=1, J=2, p
                     raise
 
         def do_cancel():
-            if shielded_caller:
+            if shielded_caller and not cancel_outside_shield:
                 if cancel in inners:
                     inners[cancel].cancel()
             else:
@@ -280,6 +289,7 @@ def units(tier):
     add("1 retexc", ["retexc"])
     add("1 retexc cancel", ["retexc"], cancel=0)
     add("1 chk in shielded scope, that scope cancelled", ["chk"], cancel=0, shielded_caller=True, J=2)
+    add("1 chk in shielded scope, enclosing scope cancelled (shield holds)", ["chk"], cancel=0, shielded_caller=True, cancel_outside_shield=True, J=2)
     add("2 ret+raise cancel0", ["ret", "raise"], cancel=0, RJ=0)
     add("2 ret+ret cancel1 abandon", ["ret", "ret"], cancel=1, abandon=True, RJ=0)
     add("2 ctx+chk cancel1", ["ctx", "chk"], cancel=1, RJ=0)
